@@ -729,7 +729,7 @@ func main() {
 		"Every input is read twice: through base.ReadMultiline (all oracles) and through the method Globals.ReadMultiline that EvalReader/EvalFile/REPL/debugger call (driven like EvalReader; its chunks must concatenate to the input and equal the first reading). "+
 		"First call with ReadOptCollectAllComments (as EvalReader) and, for template sequences, also without (as Repl). "+
 		"A case is non-trivial when the reader returned >= 2 chunks; distinct by SHA-256 of (option, input)")
-	e := &env{a: a, rep: rep, wd: vh.NewWatchdog(rep, 20*time.Second), g: base.NewGlobals(), extra: map[string]int{}}
+	e := &env{a: a, rep: rep, wd: vh.NewWatchdog(rep, 180*time.Second), g: base.NewGlobals(), extra: map[string]int{}}
 	e.g.Stderr = io.Discard
 	e.g.Stdout = io.Discard
 	coqHeader := "From Coq Require Import List NArith ZArith String.\nFrom Verif Require Import Common.GoStr C26.Model.\nImport ListNotations.\nOpen Scope string_scope.\nOpen Scope Z_scope."
